@@ -189,3 +189,27 @@ def observe_after_mutation(lib, cases, checks=('value',)):
                   'in': {'f': f, 'args': args, 'formula': text, 'after_mutation': True}})
         obs.append(o)
     return obs
+
+
+def observe_after_probes(lib, cases, probes, checks=('value',)):
+    """other calls look at the same host arrays first (same parser, same objects); the host has not touched them, so the
+    call is judged against the contents it registered"""
+    obs = []
+    for c in cases:
+        f, args = c['f'], c['args']
+        if not any(a['t'] == 'arr' for a in args):
+            continue
+        env = F.empty_env()
+        env['vars'] = {NAMES[i]: a for i, a in enumerate(args)}
+        ast = F.call(f, *[F.var(NAMES[i]) for i in range(len(args))])
+        h = F.Harnessed(lib, env)
+        for i, a in enumerate(args):
+            if a['t'] == 'arr':
+                for p in probes:
+                    h.parse(p.replace('%s', NAMES[i]))
+        text = F.render(ast)
+        o = h.parse(text)
+        o.update({'id': len(obs) + 1, 'ast': ast, 'env': env, 'formula': text, 'checks': list(checks),
+                  'in': {'f': f, 'args': args, 'formula': text, 'after_probes': list(probes)}})
+        obs.append(o)
+    return obs
